@@ -528,4 +528,10 @@ def Expr.covered : Expr → Bool
   | .concat a r => a.covered && r.covered
   | .and_ a b | .or_ a b | .cmp _ a b => a.covered && b.covered
 
+/-- what `Path.select` yields: an event of the stream, or the `Attrs` selected on one element -/
+inductive Item where
+  | ev (e : Event)
+  | attrs (a : AttrList)
+  deriving DecidableEq, Repr, Inhabited
+
 end Genshi.Path
